@@ -41,12 +41,22 @@ sh("git checkout -- src", wt)
 confirmed = meta["demo_on_clean"] == "pass" and meta["suite_with_change"] == "pass" and meta["demo_with_change"] == "fail"
 meta["confirmed"] = confirmed
 print("confirmed:", confirmed, {k: meta[k] for k in ("demo_on_clean", "suite_with_change", "demo_with_change")})
+ALT = os.environ.get("SEED_ALT")   # run against a scratch worktree of /repo instead of /repo itself
 if confirmed:
-    rc, o = sh(f"git -C /repo status --porcelain")
+    if ALT:
+        target = f"/tmp/seedrun-{ID}-{var}"
+        sh(f"git -C /repo worktree remove --force {target}")
+        rc, o = sh(f"git -C /repo worktree add --detach {target} HEAD")
+        assert rc == 0, o
+        ENV["VERIF_REPO"] = target
+    else:
+        target = "/repo"
+    rc, o = sh(f"git -C {target} status --porcelain")
     assert o.strip() == "", "repo not clean: " + o
-    rc, o = sh(f"git -C /repo apply {patch}")
+    rc, o = sh(f"git -C {target} apply {patch}")
     assert rc == 0, o
     meta["checks"] = {}
+    meta["applied_to"] = "scratch worktree of /repo (VERIF_REPO)" if ALT else "/repo"
     try:
         for c in checks:
             t = time.time()
@@ -58,7 +68,12 @@ if confirmed:
                 meta["checks"][c]["replay_excerpt"] = open(replay).read()[:1500]
             print(c, "exit", rc, viol[:1])
     finally:
-        sh("git -C /repo checkout -- .")
+        if ALT:
+            sh(f"git -C /repo worktree remove --force {target}")
+            import hashlib
+            shutil.rmtree("/verif/.build/alt-" + hashlib.sha1(target.encode()).hexdigest()[:10], ignore_errors=True)
+        else:
+            sh("git -C /repo checkout -- .")
     d = f"/verif/seeded/{ID}-{NAME}"
     os.makedirs(d, exist_ok=True)
     shutil.copy(patch, d + "/patch.diff")
